@@ -213,6 +213,11 @@ func runC01(c *Ctx) {
 	// V7: no election is started while a committed membership change is still unapplied (the voter
 	// set used for counting would be stale)
 	r.Clause("C01-V7", "no campaign while committed configuration changes are unapplied")
+	if u := c.unit("C01-V1", "raft.(*raft).loadState"); u != nil {
+		// the persisted vote is restored unconditionally: a restarted replica that forgets its vote can vote twice in one term
+		r.Order("C01-V1", u, an.Return(), []an.M{an.Store("raft.raft.Vote")}, an.OrderOpts{Min: 1})
+		r.Order("C01-V1", u, an.Return(), []an.M{an.Store("raft.raft.Term")}, an.OrderOpts{Min: 1})
+	}
 	if u := c.unit("C01-V7", "raft.(*raft).hup"); u != nil {
 		sl := an.Call("raft.(*raftLog).slice")
 		r.ArgValues("C01-V7", u, sl, 0, []string{"(1 + recv.raftLog.applied)"}, 1)
